@@ -1329,11 +1329,13 @@ def simp_sign_inf_zeroext(expr_s, expr):
         # cst is negative
         return ExprInt(0, expr.size)
     # cst is positive
+    # (the constant may not fit in X: the unsigned comparison is narrowed by
+    # simp_test_zeroext_inf)
     if expr.is_op(TOK_INF_SIGNED):
         # X.zeroExt() <s cst => X.zeroExt() <u cst (cst positive)
-        return ExprOp(TOK_INF_UNSIGNED, src, expr_s(arg2[:src.size]))
+        return ExprOp(TOK_INF_UNSIGNED, arg1, arg2)
     # X.zeroExt() <=s cst => X.zeroExt() <=u cst (cst positive)
-    return ExprOp(TOK_INF_EQUAL_UNSIGNED, src, expr_s(arg2[:src.size]))
+    return ExprOp(TOK_INF_EQUAL_UNSIGNED, arg1, arg2)
 
 
 def simp_zeroext_and_cst_eq_cst(expr_s, expr):
